@@ -4,6 +4,7 @@
    ServeHTTP's authentication branch, clientImpl.connect and the header codec (model/C10_Negotiate.v);
    spec_server / spec_client are written from PROTOCOL.md (lattice Unknown / Fin / Unlimited / Auto). *)
 From Hy Require Import model.C10_Negotiate proof.C10_Negotiate model.C10_Reuse proof.C10_Reuse.
+From Hy Require Import model.C11_Pacer model.C11_Brutal proof.C11_Pacer model.C10_Wire proof.C10_Wire.
 From Coq Require Import ZArith.
 Local Open Scope N_scope.
 
@@ -216,3 +217,145 @@ Theorem C10_reused_config_history_independent : forall c pre vals post,
   co_decision (client_connect c vals) = spec_client c (resp_from_header vals).
 Proof. exact reused_config_history_independent. Qed.
 Print Assumptions C10_reused_config_history_independent.
+
+(* ---------- composition with C11: "the rate reported to the application is the rate actually enforced ON THE WIRE" ----------
+   Clause 3 above stops at "the installed Brutal sender was constructed with the reported rate".  model/C10_Wire.v joins it
+   to C11's sender and pacer models: sender_of i dis = the BrutalSender object UseBrutal installs (brutal.NewBrutalSender(tx,
+   BandwidthConfig.DisableLossCompensation) = C11's brutal_init), and C11's theorems (C11_sender_bandwidth_bound,
+   C11_rate_upper_bound, C11_sender_drives_pacer, C11_wakeup_suffices, C11_rearm_progress) are applied to THAT object.
+   comp_rate r = floor(5r/4) = r / 0.8.  Units: bytes, nanoseconds (monotime).
+
+   Hypotheses of C11 that REMAIN (all others are discharged), for the sends of the interval, stated on the sender
+   (wire_first / wire_ok, model/C10_Wire.v) and on its call history (hist_ok, model/C11_Brutal.v):
+     * r < 2^50 B/s (float64(bps) exact, C11's range) and 4 ms x r/0.8 < 2^63 (the burst term; holds up to 1.8 TB/s:
+       C10_wire_burst_range);
+     * datagram sizes in [0, M], M <= 2^32;
+     * send times are monotime values (0 < t < 2^63) that do not go backwards, and (r/0.8) x gap < 2^63 between
+       consecutive sends (the FIRST send of the interval is exempt from both);
+     * a paced packet is sent only when the pacer's budget covers it (quic-go asks HasPacingBudget first);
+     * ack/loss batch times are non-negative int64, do not go backwards, fewer than 2^64 packets reported in total. *)
+
+(* The seam, server: for EVERY request header, a decision Brutal r with r < 2^50 reports r to EventLogger.Connect and
+   installs exactly C11's initial sender for r; r is positive, at most the client's declaration and at most the
+   server's own limit when it has one. *)
+Theorem C10_installed_sender_server : forall c vals r dis,
+  so_decision (server_auth c vals) = Brutal r -> r < 2 ^ 50 ->
+  so_connect_tx (server_auth c vals) = r /\
+  sender_of (so_installed (server_auth c vals)) dis = Some (brutal_init (Z.of_N r) dis) /\
+  0 < r /\ r <= req_from_header vals /\ (0 < s_max_tx c -> r <= s_max_tx c).
+Proof. exact server_wire. Qed.
+Print Assumptions C10_installed_sender_server.
+
+(* The seam, client (HandshakeInfo.Tx), for EVERY response header. *)
+Theorem C10_installed_sender_client : forall c vals r dis,
+  co_decision (client_connect c vals) = Brutal r -> r < 2 ^ 50 ->
+  co_info_tx (client_connect c vals) = r /\
+  sender_of (co_installed (client_connect c vals)) dis = Some (brutal_init (Z.of_N r) dis) /\
+  0 < r /\ r <= c_max_tx c /\
+  (0 < r_rx (resp_from_header vals) -> r <= r_rx (resp_from_header vals)).
+Proof. exact client_wire. Qed.
+Print Assumptions C10_installed_sender_client.
+
+(* Wire-level rate bound, server: for every configuration, every request header whose decision is Brutal r (r < 2^50),
+   every loss-compensation setting, every call history pre ++ OSent t0 sz0 :: mid of the installed sender (any ack/loss
+   batches, datagram-size changes and idle time in between) satisfying the remaining hypotheses: the bytes released
+   from the send at t0 to the last send of mid are at most
+       burst_bound + (REPORTED rate / 0.8) x interval / 10^9,
+   with the rate EventLogger.Connect was given; hence at most the same expression with the client's declared limit,
+   and with the server's own limit when it has one (so: min(own, declared)/0.8 per second plus a burst). *)
+Theorem C10_wire_rate_bound_server : forall c vals r dis b0 M pre t0 sz0 mid,
+  so_decision (server_auth c vals) = Brutal r -> r < 2 ^ 50 ->
+  sender_of (so_installed (server_auth c vals)) dis = Some b0 ->
+  let rep := so_connect_tx (server_auth c vals) in
+  (maxBurstPacingDelayMultiplier * MinPacingDelay_ns * comp_rate rep < two63)%Z -> (0 <= M <= mds_limit)%Z ->
+  hist_ok 0 0 (pre ++ OSent t0 sz0 :: mid) ->
+  wire_first M (brun b0 pre) t0 sz0 -> wire_ok (comp_rate rep) M (on_sent (brun b0 pre) t0 sz0) mid ->
+  let dt := (last_sent mid t0 - t0)%Z in
+  let bound (L : N) := (burst_bound (comp_rate L) M + comp_rate L * dt / ns_per_s)%Z in
+  (0 <= dt)%Z /\
+  (sent_bytes (OSent t0 sz0 :: mid) <= bound rep)%Z /\
+  (sent_bytes (OSent t0 sz0 :: mid) <= bound (req_from_header vals))%Z /\
+  (0 < s_max_tx c -> (sent_bytes (OSent t0 sz0 :: mid) <= bound (s_max_tx c))%Z).
+Proof. exact server_wire_bound. Qed.
+Print Assumptions C10_wire_rate_bound_server.
+
+(* Wire-level rate bound, client: the same with HandshakeInfo.Tx, the client's own limit and the server's declared one. *)
+Theorem C10_wire_rate_bound_client : forall c vals r dis b0 M pre t0 sz0 mid,
+  co_decision (client_connect c vals) = Brutal r -> r < 2 ^ 50 ->
+  sender_of (co_installed (client_connect c vals)) dis = Some b0 ->
+  let rep := co_info_tx (client_connect c vals) in
+  (maxBurstPacingDelayMultiplier * MinPacingDelay_ns * comp_rate rep < two63)%Z -> (0 <= M <= mds_limit)%Z ->
+  hist_ok 0 0 (pre ++ OSent t0 sz0 :: mid) ->
+  wire_first M (brun b0 pre) t0 sz0 -> wire_ok (comp_rate rep) M (on_sent (brun b0 pre) t0 sz0) mid ->
+  let dt := (last_sent mid t0 - t0)%Z in
+  let bound (L : N) := (burst_bound (comp_rate L) M + comp_rate L * dt / ns_per_s)%Z in
+  (0 <= dt)%Z /\
+  (sent_bytes (OSent t0 sz0 :: mid) <= bound rep)%Z /\
+  (sent_bytes (OSent t0 sz0 :: mid) <= bound (c_max_tx c))%Z /\
+  (0 < r_rx (resp_from_header vals) ->
+   (sent_bytes (OSent t0 sz0 :: mid) <= bound (r_rx (resp_from_header vals)))%Z).
+Proof. exact client_wire_bound. Qed.
+Print Assumptions C10_wire_rate_bound_client.
+
+(* Never stalled: the sender installed for a reported rate r (0 < r < 2^50), after ANY call history: the pacer runs at a
+   bandwidth in [r, r/0.8]; TimeUntilSend never panics; waiting until the time it announces yields budget for a full
+   datagram (HasPacingBudget true); and if the budget is still short at `now`, the announced time is strictly later
+   than now and at most max(MinPacingDelay, time for one datagram at the REPORTED rate + 1 ns) after the last send. *)
+Theorem C10_wire_never_stalled : forall r dis, 0 < r < 2 ^ 50 -> forall l,
+  hist_ok 0 0 l ->
+  let b := brun (brutal_init (Z.of_N r) dis) l in
+  let p := b_pacer b in
+  (Z.of_N r <= bandwidth b <= comp_rate r)%Z /\ p_mds p = b_mds b /\
+  (exists w, b_time_until_send b = Ok w) /\
+  (forall w, (0 <= p_budget p < b_mds b)%Z -> (b_mds b <= mds_limit)%Z -> (0 < p_last p)%Z ->
+     b_time_until_send b = Ok w -> (p_last p <= w < two63)%Z -> (comp_rate r * (w - p_last p) < two63)%Z ->
+     has_pacing_budget b w = true) /\
+  (forall now w, (0 <= p_budget p <= two63 / 2)%Z -> (0 <= b_mds b <= mds_limit)%Z ->
+     (0 < p_last p <= now)%Z -> (now < two63)%Z -> (comp_rate r * (now - p_last p) < two63)%Z ->
+     has_pacing_budget b now = false -> b_time_until_send b = Ok w -> (p_last p <= w)%Z ->
+     (now < w)%Z /\ (w - p_last p <= Z.max MinPacingDelay_ns (ns_per_s * b_mds b / Z.of_N r + 1))%Z).
+Proof. exact wire_never_stalled. Qed.
+Print Assumptions C10_wire_never_stalled.
+
+(* Both sides of one handshake, through the real header encoding: each side's fixed rate is what it reports, is at most
+   its own limit and the CONFIGURED receive limit of the peer, and the sender it installs is C11's initial sender for that
+   reported rate - so C10_wire_rate_bound_* and C10_wire_never_stalled speak about both directions of the connection. *)
+Theorem C10_handshake_wire : forall s c,
+  c_max_rx c <= MaxU64 -> s_max_rx s <= MaxU64 ->
+  let '(so, co) := handshake s c in
+  (forall r, so_decision so = Brutal r -> r < 2 ^ 50 ->
+     so_connect_tx so = r /\ 0 < r /\ r <= c_max_rx c /\ (0 < s_max_tx s -> r <= s_max_tx s) /\
+     forall dis, sender_of (so_installed so) dis = Some (brutal_init (Z.of_N r) dis)) /\
+  (forall r, co_decision co = Brutal r -> r < 2 ^ 50 ->
+     co_info_tx co = r /\ 0 < r /\ r <= c_max_tx c /\ (0 < s_max_rx s -> r <= s_max_rx s) /\
+     forall dis, sender_of (co_installed co) dis = Some (brutal_init (Z.of_N r) dis)).
+Proof. exact handshake_wire. Qed.
+Print Assumptions C10_handshake_wire.
+
+(* the burst side condition in numbers, with the constants of this build (4 x MinPacingDelay = 4 ms) *)
+Theorem C10_wire_burst_range : forall r, r <= 1800000000000 ->
+  (maxBurstPacingDelayMultiplier * MinPacingDelay_ns * comp_rate r < two63)%Z.
+Proof. exact burst_range_ok. Qed.
+Print Assumptions C10_wire_burst_range.
+
+(* Non-vacuity: server without a send limit, Hysteria-CC-RX: 65536.  Reported 65536; the installed sender (datagram size
+   1200) sends its whole initial burst at t = 1 s, sees 40 acked / 10 lost (ack rate 0.8: bandwidth 81920 = 65536/0.8) and
+   sends one datagram more exactly when it is covered: all hypotheses hold, the bound is met with equality (13200). *)
+Theorem C10_wire_example :
+  let c := mkSrv false 0 0 TBbr in
+  let vals := [[x36;x35;x35;x33;x36]] in
+  let pre := [OSetMds 1200] in
+  let mid := [OEvent 1000000001 40 10; OSent 1014648438 1200] in
+  let b0 := brutal_init 65536 false in
+  so_decision (server_auth c vals) = Brutal 65536 /\ so_connect_tx (server_auth c vals) = 65536 /\
+  sender_of (so_installed (server_auth c vals)) false = Some b0 /\
+  comp_rate 65536 = 81920%Z /\
+  (maxBurstPacingDelayMultiplier * MinPacingDelay_ns * comp_rate 65536 < two63)%Z /\
+  hist_ok 0 0 (pre ++ OSent 1000000000 12000 :: mid) /\
+  wire_first 1200 (brun b0 pre) 1000000000 12000 /\
+  wire_ok (comp_rate 65536) 1200 (on_sent (brun b0 pre) 1000000000 12000) mid /\
+  sent_bytes (OSent 1000000000 12000 :: mid) = 13200%Z /\
+  (burst_bound (comp_rate 65536) 1200 + comp_rate 65536 * (last_sent mid 1000000000 - 1000000000) / ns_per_s = 13200)%Z /\
+  windows_ok (comp_rate 65536) (burst_bound (comp_rate 65536) 1200) (sends_of (pre ++ OSent 1000000000 12000 :: mid)) = true.
+Proof. exact wire_example. Qed.
+Print Assumptions C10_wire_example.
